@@ -4,4 +4,5 @@ import Geo.Props.C14
 #print axioms Geo.T14_2_decomposition
 #print axioms Geo.T14_3_secant
 #print axioms Geo.T14_5_tangent
+#print axioms Geo.T14_5_is_tangent_iff
 #print axioms Geo.T14_5_polar_reciprocity
